@@ -708,8 +708,13 @@ def real_run_case(chk, env, case):
     ann = case["annealing"]
     L = case["L"]
     sp = dict(acceptation_history_length=L, mean_acceptation_rate_target_bounds=case["band"], adaptive_std_factor=case["f"])
+    # the individual-level samplers are tuned on their own (window, band, factor): what is configured for one level must not
+    # leak into the other
+    ci = case.get("ind") or dict(L=L, band=case["band"], f=case["f"])
+    sp_ind = dict(acceptation_history_length=ci["L"], mean_acceptation_rate_target_bounds=ci["band"], adaptive_std_factor=ci["f"])
+    configured = {True: (ci["L"], list(ci["band"]), ci["f"]), False: (L, list(case["band"]), case["f"])}
     fit_kws = dict(n_iter=case["n_iter"], seed=case["seed"], progress_bar=False, annealing=ann,
-                   sampler_ind_params=sp, sampler_pop_params=dict(sp, random_order_dimension=True), sampler_pop=case.get("sampler_pop", "Gibbs"))
+                   sampler_ind_params=sp_ind, sampler_pop_params=dict(sp, random_order_dimension=True), sampler_pop=case.get("sampler_pop", "Gibbs"))
     runs = [("mcmc_saem", case["n_iter"], ann)]
     try:
         AM._update_temperature, GM._update_std, AM._initialize_annealing = ut, us, ia
@@ -717,7 +722,7 @@ def real_run_case(chk, env, case):
             model.fit(data, "mcmc_saem", **fit_kws)
             if case.get("personalize"):
                 pk = dict(n_iter=case["personalize"]["n_iter"], seed=case["seed"], progress_bar=False,
-                          annealing=case["personalize"]["annealing"], sampler_ind_params=sp)
+                          annealing=case["personalize"]["annealing"], sampler_ind_params=sp_ind)
                 model.personalize(data, case["personalize"]["algo"], **pk)
                 runs.append((case["personalize"]["algo"], case["personalize"]["n_iter"], case["personalize"]["annealing"]))
     except Exception as e:  # noqa
@@ -743,15 +748,22 @@ def real_run_case(chk, env, case):
     # scales
     for (run_no, name), r in sorted(rec_S.items(), key=lambda kv: kv[0]):
         s = r["sampler"]
-        Ls = s.acceptation_history_length
-        band = [s._mean_acceptation_lower_bound_before_adaptation, s._mean_acceptation_upper_bound_before_adaptation]
+        from leaspy.samplers.gibbs import IndividualGibbsSampler
+        is_ind = isinstance(s, IndividualGibbsSampler)
+        Ls, band, fac = configured[is_ind]
+        got_cfg = (s.acceptation_history_length,
+                   [s._mean_acceptation_lower_bound_before_adaptation, s._mean_acceptation_upper_bound_before_adaptation], s._adaptive_std_factor)
+        if (got_cfg[0], [float(x) for x in got_cfg[1]], float(got_cfg[2])) != (Ls, [float(x) for x in band], float(fac)):
+            chk.impl_failure(case, f"{'individual' if is_ind else 'population'} sampler '{name}' (run {run_no}) works with window/band/factor "
+                                   f"{got_cfg}, configured for its level: {(Ls, band, fac)}")
+        chk.tag("real_run_sampler_level", "individual" if is_ind else "population")
         n_expected = runs[run_no - 1][1]
         if len(r["rows"]) != n_expected:
             chk.impl_failure(case, f"sampler '{name}': {len(r['rows'])} scale updates in {n_expected} iterations")
             continue
-        for what, fid in std_predicate(env, chk, Ls, band, s._adaptive_std_factor, r["std0"], r["rows"], r["trace"])[:2]:
+        for what, fid in std_predicate(env, chk, Ls, band, fac, r["std0"], r["rows"], r["trace"])[:2]:
             chk.impl_failure(case, f"sampler '{name}' (run {run_no}): {what}", finding=fid)
-        reqs.append(std_request(Ls, band, s._adaptive_std_factor, r["std0"], r["rows"]))
+        reqs.append(std_request(Ls, band, fac, r["std0"], r["rows"]))
         want.append((std_canon(r["trace"]), f"sampler '{name}' (run {run_no}): scales in a real run"))
         chk.tag("real_run_adaptations", "changed" if any(a != b for a, b in zip([r["std0"]] + r["trace"], r["trace"])) else "none")
     out = chk.model(reqs)
@@ -764,7 +776,7 @@ def real_run_case(chk, env, case):
 
 def real_cases(chk):
     rng = chk.rng
-    base = [dict(kind="real", model="logistic", n_iter=30, seed=0, L=5, band=[0.2, 0.4], f=0.1,
+    base = [dict(kind="real", model="logistic", n_iter=30, seed=0, L=5, band=[0.2, 0.4], f=0.1, ind=dict(L=4, band=[0.3, 0.7], f=0.3),
                  annealing=dict(do_annealing=True, initial_temperature=3.3, n_plateau=4, n_iter_frac=0.5),
                  personalize=dict(algo="mean_posterior", n_iter=20,
                                   annealing=dict(do_annealing=True, initial_temperature=5, n_plateau=8, n_iter_frac=0.8)))]
@@ -775,6 +787,8 @@ def real_cases(chk):
             base.append(dict(kind="real", model=rng.choice(["logistic", "linear"]), n_iter=n_iter, seed=10 + i,
                              L=rng.choice([2, 3, 5, 7]), band=rng.choice([[0.2, 0.4], [0.25, 0.5], [0.1, 0.3]]), f=rng.choice([0.1, 0.3]),
                              sampler_pop=rng.choice(["Gibbs", "FastGibbs", "Metropolis-Hastings"]),
+                             ind=rng.choice([None, dict(L=rng.choice([2, 3, 4, 6]), band=rng.choice([[0.3, 0.7], [0.15, 0.35], [0.2, 0.4]]),
+                                                        f=rng.choice([0.1, 0.2, 0.3]))]),
                              annealing=dict(do_annealing=rng.random() < 0.85, initial_temperature=rng.choice([1.5, 2, 3.3, 5, 10]),
                                             n_plateau=P, n_iter_frac=rng.choice([0.5, 0.8, 1.0, 0.67])),
                              personalize=rng.choice([None, dict(algo=rng.choice(["mean_posterior", "mode_posterior"]), n_iter=rng.randrange(8, 30),
